@@ -108,6 +108,16 @@ fn main() {
                 Cfg { ents: three(), clients: clients(2), max_size: vec![1200; 2], rel: true, ..Default::default() },
                 Profile { steps: 60, comps: vec!["A"], rel: true, marks: false, clean: profile == "rel", ..Default::default() },
             ),
+            // relations with a small maximum message size: the entities of one relation graph share a message
+            "rel_split" => (
+                Cfg { ents: vec!["e1".into(), "e2".into(), "e3".into(), "e4".into()], clients: clients(2), max_size: vec![100, 220], rel: true, ..Default::default() },
+                Profile { steps: 70, comps: vec!["A", "B"], pad: 40, rel: true, marks: false, clean: true, ..Default::default() },
+            ),
+            // relations together with visibility and marker changes (known finding F17 is not avoided)
+            "rel_vis" => (
+                Cfg { ents: three(), clients: clients(2), max_size: vec![1200; 2], rel: true, policy: "black".into(), ..Default::default() },
+                Profile { steps: 60, comps: vec!["A"], rel: true, vis: true, marks: true, ..Default::default() },
+            ),
             "prespawn" => (
                 Cfg { ents: three(), clients: clients(2), max_size: vec![1200; 2], ..Default::default() },
                 Profile { steps: 70, comps: vec!["A", "B"], pre: true, ..Default::default() },
